@@ -255,6 +255,20 @@ def run(chk, replay=None):
                 nontriv = False
                 continue
             if any(v is None for v in V.values()) or any(v is None for v in J.values()):
+                # a phasor is a complex NUMBER once the component values are numbers: a result that still contains the Laplace
+                # variable s (or t) means that a stamp used a Laplace-domain quantity in the phasor analysis
+                from lcapy import s as s_lap
+                stray = []
+                for n_, v_ in list(mna.Vdict.items()) + [(b_, mna.Idict[b_]) for b_ in mna.unknown_branch_currents]:
+                    x_ = v_.sympy if hasattr(v_, 'sympy') else S.sympify(v_)
+                    if x_.has(s_lap.sympy) or x_.has(tt.sympy):
+                        stray.append((str(n_), str(x_)[:80]))
+                if stray:
+                    n_cex += 1
+                    chk.counterexample({'kind': 'laws-at-jw', 'clause': 'phasor-depends-on-s'},
+                                       {'input': {'netlist': llines, 'omega': fstr(w), 'subs': {k_: fstr(v) for k_, v in case['subs'].items()}},
+                                        'lcapy': dict(stray[:4]), 'spec': 'the phasor solution at angular frequency omega is a complex number: every immittance at s = j omega'},
+                                       'a phasor of the ac solution still contains the Laplace variable s')
                 chk.count('lcapy', 'non-rational-phasor')
                 nontriv = False
                 continue
@@ -670,6 +684,69 @@ def run(chk, replay=None):
             chk.count('lcapy-error', 'acchecker:' + type(ex).__name__ + ':' + str(ex)[:40])
 
     mark('acchecker')
+    # (g') a sinusoid written with a NEGATIVE coefficient of t and a symbolic phase, A f(P_ - w t) (SymPy does not canonicalise it
+    #      away): cos(P - wt) = cos(wt - P), sin(P - wt) = -sin(wt - P).  Whatever frequency sign the code reports, the SIGNAL
+    #      must be the same: the phasor is compared at the positive frequency (conjugate when omega is reported negative), and
+    #      phasor().time() must return the expression
+    P_ = S.Symbol('P_', real=True)
+    for k in range(6 if quick else 60):
+        w = Fraction(rng.randint(1, 9), rng.randint(1, 3))
+        W = S.Rational(w.numerator, w.denominator)
+        a = Fraction(rng.randint(1, 9), rng.randint(1, 4)) * rng.choice([1, -1])
+        A = S.Rational(a.numerator, a.denominator)
+        (ph1, c1, s1) = rng.choice(angles[1:4])
+        f1 = ['sin', 'cos'][k % 2]
+        e = A * {'cos': S.cos, 'sin': S.sin}[f1](P_ - W * ts)
+        chk.case(('acchecker-negfreq', f1, a, str(ph1), w), True)
+        chk.count('conversion', 'acchecker-negative-t-coefficient-' + f1)
+        try:
+            with hard_time_limit(30):
+                ck = ACChecker(e, ts)
+                if not ck.is_ac:
+                    chk.count('conversion', 'acchecker-negfreq:not-recognised')
+                    continue
+                got = rect_of(ck.amp, ck.phase, {P_: ph1})
+                om = S.simplify(ck.omega)
+                if om.is_negative:
+                    got = (got[0], -got[1])
+                back = lcapy.voltage(lcapy.expr(e)).phasor().time().sympy
+                d = S.simplify(S.expand_trig((back - e).subs(P_, ph1)))
+        except (Exception, common.TimeLimit) as ex:   # noqa
+            chk.count('lcapy-error', 'acchecker-negfreq:' + type(ex).__name__ + ':' + str(ex)[:40])
+            continue
+        # model: cos(P - wt) = cos(wt + (-P)); sin(P - wt) = -sin(wt + (-P))
+        rep = drv.ask1('ph.term %s %s %s %s' % (f1, fstr(a if f1 == 'cos' else -a), fstr(c1), fstr(-s1))).split()
+        want = (Fraction(rep[0]), Fraction(rep[1]))
+        chk.coverage['correspondence']['compared'] += 1
+        if got != want or S.simplify(abs(om) - W) != 0 or d != 0:
+            n_cex += 1
+            chk.counterexample({'kind': 'sinusoid-to-phasor', 'form': 'negative-t-coefficient'},
+                               {'input': {'expression': str(e), 'P_': str(ph1)},
+                                'lcapy': {'amp': str(ck.amp), 'phase': str(ck.phase), 'omega': str(ck.omega), 'phasor at |omega|': str(got),
+                                          'phasor().time() - expression': str(d)},
+                                'model': {'phasor': ' '.join(rep)},
+                                'spec': 'cos(P - wt) = cos(wt - P), sin(P - wt) = -sin(wt - P): same signal, same phasor at the positive frequency'},
+                               'sinusoid with a negative coefficient of t is converted to the phasor of a different signal')
+
+    # (g'') a PRODUCT of sinusoids is not an ac signal of one frequency (it has the sum and the difference frequency)
+    from lcapy.acdc import is_ac as _is_ac
+    for k in range(3 if quick else 20):
+        w_a, w_b = S.Integer(rng.randint(1, 4)), S.Integer(rng.randint(5, 9))
+        e = {0: S.cos(w_a * ts) * S.cos(w_b * ts), 1: S.cos(w_a * ts) * S.sin(w_b * ts), 2: S.sin(w_a * ts) * S.sin(w_a * ts)}[k % 3]
+        chk.case(('is-ac-product', str(e)), True)
+        chk.count('conversion', 'is-ac-of-a-product')
+        try:
+            acc = bool(_is_ac(e, ts))
+        except Exception as ex:   # noqa
+            chk.count('lcapy-error', 'is-ac-product:' + type(ex).__name__)
+            continue
+        if acc:
+            n_cex += 1
+            chk.counterexample({'kind': 'is-ac-product'},
+                               {'input': {'expression': str(e)}, 'lcapy': {'is_ac': True, 'phasor': str(lcapy.phasor(lcapy.expr(e)))},
+                                'spec': 'only a single sinusoid (or a sum of sinusoids of ONE frequency) is an ac signal with a phasor'},
+                               'a product of sinusoids is accepted as an ac signal and given a phasor')
+
     # (h) magnitude / phase / rms / abs / time() of phasors (Gaussian rationals, some with a rational magnitude),
     #     judged by the Lean predicate `ph.polar`: M^2 = |P|^2, M (cos phi, sin phi) = (re, im), rms^2 = |P|^2 / 2
     pyth = [(3, 4), (5, 12), (8, 15), (4, 3), (1, 0), (0, 1), (1, 1), (2, 1)]
